@@ -567,6 +567,7 @@ static carquet_status_t check_page_extent(
 
 static carquet_status_t load_dictionary_page_mmap(
     carquet_column_reader_t* reader,
+    int64_t dict_offset,
     carquet_error_t* error) {
 
     carquet_reader_t* file_reader = reader->file_reader;
@@ -574,7 +575,6 @@ static carquet_status_t load_dictionary_page_mmap(
     const parquet_column_metadata_t* col_meta = reader->col_meta;
 
     /* Parse page header directly from mmap */
-    int64_t dict_offset = col_meta->dictionary_page_offset;
     if (dict_offset < 0 || (uint64_t)dict_offset >= (uint64_t)file_reader->file_size) {
         CARQUET_SET_ERROR(error, CARQUET_ERROR_INVALID_PAGE, "Dictionary page offset outside the file");
         return CARQUET_ERROR_INVALID_PAGE;
@@ -698,6 +698,7 @@ static size_t file_read_at(FILE* file, long offset, void* buffer, size_t size,
 
 static carquet_status_t load_dictionary_page_fread(
     carquet_column_reader_t* reader,
+    int64_t dict_offset,
     carquet_error_t* error) {
 
     carquet_reader_t* file_reader = reader->file_reader;
@@ -707,7 +708,7 @@ static carquet_status_t load_dictionary_page_fread(
     /* Seek to dictionary page and read page header */
     uint8_t header_buf[256];
     bool seek_failed = false;
-    size_t header_read = file_read_at(file, (long)col_meta->dictionary_page_offset,
+    size_t header_read = file_read_at(file, (long)dict_offset,
                                       header_buf, sizeof(header_buf), &seek_failed);
     if (seek_failed) {
         CARQUET_SET_ERROR(error, CARQUET_ERROR_FILE_SEEK, "Failed to seek to dictionary");
@@ -739,7 +740,7 @@ static carquet_status_t load_dictionary_page_fread(
     }
 
     size_t data_read = file_read_at(file,
-        (long)col_meta->dictionary_page_offset + (long)header_size,
+        (long)dict_offset + (long)header_size,
         compressed, (size_t)page_header.compressed_page_size, &seek_failed);
     if (seek_failed) {
         free(compressed);
@@ -802,7 +803,7 @@ static carquet_status_t load_dictionary_page_fread(
      * dictionary-encoded columns. The reliable offset is always right
      * after the dictionary page: dict_offset + header + compressed data. */
     if (status == CARQUET_OK) {
-        reader->data_start_offset = col_meta->dictionary_page_offset +
+        reader->data_start_offset = dict_offset +
                                     (int64_t)header_size +
                                     page_header.compressed_page_size;
     }
@@ -861,7 +862,8 @@ static carquet_status_t load_next_page_mmap(
 
     /* Load dictionary if needed (may update data_start_offset) */
     if (col_meta->has_dictionary_page_offset && !reader->has_dictionary) {
-        carquet_status_t status = load_dictionary_page_mmap(reader, error);
+        carquet_status_t status = load_dictionary_page_mmap(
+            reader, col_meta->dictionary_page_offset, error);
         if (status != CARQUET_OK) {
             return status;
         }
@@ -882,6 +884,17 @@ static carquet_status_t load_next_page_mmap(
         header_ptr, avail < 256 ? avail : 256, &page_header, &header_size, error);
     if (status != CARQUET_OK) {
         return status;
+    }
+
+    if (page_header.type == CARQUET_PAGE_DICTIONARY && !reader->has_dictionary &&
+        reader->current_page == 0) {
+        /* Older writers announce the dictionary page through data_page_offset
+         * and leave dictionary_page_offset out: the chunk starts with it */
+        status = load_dictionary_page_mmap(reader, page_offset, error);
+        if (status != CARQUET_OK) {
+            return status;
+        }
+        return load_next_page_mmap(reader, error);
     }
 
     if (page_header.type == CARQUET_PAGE_DATA_V2) {
@@ -1098,7 +1111,8 @@ static carquet_status_t load_next_page_fread(
 
     /* Load dictionary if needed (may update data_start_offset) */
     if (col_meta->has_dictionary_page_offset && !reader->has_dictionary) {
-        carquet_status_t status = load_dictionary_page_fread(reader, error);
+        carquet_status_t status = load_dictionary_page_fread(
+            reader, col_meta->dictionary_page_offset, error);
         if (status != CARQUET_OK) {
             return status;
         }
@@ -1125,6 +1139,17 @@ static carquet_status_t load_next_page_fread(
         header_buf, header_read, &page_header, &header_size, error);
     if (status != CARQUET_OK) {
         return status;
+    }
+
+    if (page_header.type == CARQUET_PAGE_DICTIONARY && !reader->has_dictionary &&
+        reader->current_page == 0) {
+        /* Older writers announce the dictionary page through data_page_offset
+         * and leave dictionary_page_offset out: the chunk starts with it */
+        status = load_dictionary_page_fread(reader, data_offset, error);
+        if (status != CARQUET_OK) {
+            return status;
+        }
+        return load_next_page_fread(reader, error);
     }
 
     if (page_header.type == CARQUET_PAGE_DATA_V2) {
